@@ -9,7 +9,7 @@ import (
 func init() {
 	register(&Check{
 		ID: "C11", Level: "exploration", QuickSecs: 150, ThoroughSecs: 1200,
-		Rule:        "skeletons over {'a',.,&{},!{},#{},A} x {?,*,&,!} x seq/choice up to N nodes (quick 4, thorough 5) under a rule-level action, second rule A with a display name and its own action; a rule attribute family (three rules with blocks, every assignment of display names x both definition orders of the called rules); every fault script giving each block one of {ok, error e<id>, error with a message shared by all blocks, panic(error), panic(string)} with at most 3 faulting blocks, for code predicates both the matching and the failing result; inputs over {a,b} up to L=2; Recover(true)/Recover(false) x filename empty/non-empty; 2 generation flag sets; plus left-recursive rules (direct, tower, indirect pair) generated with -support-left-recursion with the same fault scripts. Compared with the reference: value, complete error list (text incl. file:line:col (offset): rule prefix, order, de-duplication by message), dynamic type errList of *parserError, Inner pointer-identical to the scripted error, panic containment vs propagation. Non-trivial = at least two recorded errors or a panic.",
+		Rule:        "skeletons over {'a',.,&{},!{},#{},A} x {?,*,&,!} x seq/choice up to N nodes (quick 4, thorough 5) under a rule-level action, second rule A with a display name and its own action; a rule attribute family (three rules with blocks, every assignment of display names x both definition orders of the called rules x 3 call shapes: in sequence, as alternatives erring at the same position and depth, under a predicate and again); every fault script giving each block one of {ok, error e<id>, error with a message shared by all blocks, panic(error), panic(string)} with at most 3 faulting blocks, for code predicates both the matching and the failing result; inputs over {a,b} up to L=2; Recover(true)/Recover(false) x filename empty/non-empty; 2 generation flag sets; plus left-recursive rules (direct, tower, indirect pair) generated with -support-left-recursion with the same fault scripts. Compared with the reference: value, complete error list (text incl. file:line:col (offset): rule prefix, order, de-duplication by message), dynamic type errList of *parserError, Inner pointer-identical to the scripted error, panic containment vs propagation. Non-trivial = at least two recorded errors or a panic.",
 		Assumptions: []string{"E1 loader", "scripted probes as code blocks"},
 		Run:         runC11,
 	})
@@ -120,14 +120,25 @@ func runC11(c *ShardCtx) {
 			}
 			ra := &peg.Rule{Name: "A", Display: disp(2, "the A"), Expr: peg.Action(0, peg.Cls(false, false, "a", "b"))}
 			rb := &peg.Rule{Name: "B", Display: disp(4, "a B"), Expr: peg.Choice(peg.Action(0, peg.Lit("b")), peg.Seq(peg.AndCode(0), peg.Action(0, peg.Any())))}
-			g := &peg.Grammar{Rules: []*peg.Rule{{Name: "S", Display: disp(1, "start"), Expr: peg.Action(0, peg.Seq(peg.Ref("A"), peg.Opt(peg.Ref("B"))))}, ra, rb}}
-			if order == 1 {
-				g.Rules[1], g.Rules[2] = g.Rules[2], g.Rules[1]
+			for shape := 0; shape < 3; shape++ {
+				var top *peg.Expr
+				switch shape {
+				case 0:
+					top = peg.Seq(peg.Ref("A"), peg.Opt(peg.Ref("B")))
+				case 1: // sibling rules recording errors at the SAME position and depth, one after the other
+					top = peg.Choice(peg.Seq(peg.Ref("A"), peg.Lit("b")), peg.Ref("B"))
+				case 2:
+					top = peg.Seq(peg.And(peg.Ref("A")), peg.Ref("B"), peg.Opt(peg.Ref("A")))
+				}
+				g := &peg.Grammar{Rules: []*peg.Rule{{Name: "S", Display: disp(1, "start"), Expr: peg.Action(0, top)}, {Name: ra.Name, Display: ra.Display, Expr: ra.Expr.Clone()}, {Name: rb.Name, Display: rb.Display, Expr: rb.Expr.Clone()}}}
+				if order == 1 {
+					g.Rules[1], g.Rules[2] = g.Rules[2], g.Rules[1]
+				}
+				peg.Renumber(g, 1)
+				peg.AssignArgs(g)
+				fam := &family{gens: gens2, inputs: inputs, opts: opts, scripts: faultScripts(g.Blocks(), 2, true), nontrivial: nontriv, cmp: core.CmpOpts{SkipLog: true}, confEvery: 5, confQuota: 1}
+				runGrammar(c, g, fam)
 			}
-			peg.Renumber(g, 1)
-			peg.AssignArgs(g)
-			fam := &family{gens: gens2, inputs: inputs, opts: opts, scripts: faultScripts(g.Blocks(), 2, true), nontrivial: nontriv, cmp: core.CmpOpts{SkipLog: true}, confEvery: 5, confQuota: 1}
-			runGrammar(c, g, fam)
 		}
 	}
 	for _, body := range en.UpTo(n) {
